@@ -31,6 +31,7 @@ def flat_prog(
     n_setup: int = 0,
     n_debug: int = 0,
     mark_roots: bool = True,
+    dup_rate: float = 0.0,
 ) -> Dict[str, Any]:
     """A call-only program: every statement is one call of a constructor function, depending on earlier
     sites through positional args / kwargs / activation flags.  Acyclic by construction."""
@@ -45,9 +46,10 @@ def flat_prog(
     fns: Dict[str, Any] = {}
     body: List[Any] = []
     setup_idx = set(range(min(n_setup, n)))  # setup sites come first (they may only depend on setup/consts)
+    debug_idx = set(range(max(len(setup_idx), n - n_debug), n)) if n_debug else set()
     for i in range(n):
         fn = names[i]
-        if reuse and i > 0 and i not in setup_idx and draw(st.integers(0, 3)) == 0:
+        if reuse and i > 0 and i not in setup_idx and i not in debug_idx and draw(st.integers(0, 3)) == 0:
             cands = [j for j in range(i) if j not in setup_idx and not fns[body[j]["fn"]].get("debug") and body[j]["mark"]]
             if cands:
                 fn = body[draw(st.sampled_from(cands))]["fn"]
@@ -61,12 +63,16 @@ def flat_prog(
                 spec["setup"] = True
                 if stamp_setup:
                     spec["stamp"] = True
+            if i in debug_idx:
+                spec["debug"] = True
             fns[fn] = spec
         # dependencies
         if i in setup_idx:
             pool = [j for j in range(i) if j in setup_idx]
-        else:
+        elif i in debug_idx:
             pool = list(range(i))
+        else:
+            pool = [j for j in range(i) if j not in debug_idx]
         k = 0 if not pool else draw(st.integers(0, min(max_deps, len(pool))))
         if wide and pool and k > 0:
             k = draw(st.integers(0, 1))
@@ -88,6 +94,15 @@ def flat_prog(
                     args.append(e)
         if n_params and i not in setup_idx and draw(st.integers(0, 2)) == 0:
             args.append(["p", f"p{draw(st.integers(0, n_params - 1))}"])
+        if dup_rate and i > 0 and i not in setup_idx and i not in debug_idx and draw(st.floats(0, 1)) < dup_rate:
+            cands = [j for j in range(i) if j not in setup_idx and j not in debug_idx and body[j]["active"] is None]
+            if cands:
+                j = draw(st.sampled_from(cands))
+                body[j]["mark"] = False
+                body.append({"k": "call", "fn": body[j]["fn"], "site": site(i), "mark": False,
+                             "args": list(body[j]["args"]), "kwargs": dict(body[j]["kwargs"]), "active": None,
+                             "unpack": None, "tags": [], "out": f"v{i}"})
+                continue
         mark = True
         if not mark_roots and not args and not kwargs and active is None and fn == names[i]:
             mark = False  # a true root of the graph: no constant marker argument either
@@ -179,3 +194,9 @@ def n_paths_max(deps: Dict[str, List[str]]) -> int:
                 cnt[s] += cnt[d] if d != s else 0
         best = max(best, max(cnt.values()))
     return best
+
+
+def true_roots(P: Dict[str, Any]) -> List[str]:
+    """Sites that are roots of tawazi's graph: no dependency at all, not even a constant argument."""
+    return [s["site"] for s in P["body"] if s["k"] == "call" and not s.get("mark", True) and not s["args"]
+            and not s["kwargs"] and s.get("active") is None]
